@@ -91,6 +91,18 @@ Section C17.
     (exists id q v n, handle_message parse_jsi p true (Some f) = WsStart id q v n) <-> ws_well_formed parse_jsi (Some f) = true.
   Proof. exact (ws_start_iff_well_formed parse_jsi). Qed.
 
+  (** ** beyond the canonical envelopes: any JSON object read as POST application/json body (no
+      ?query=) and read as start / subscribe payload gives the same operation, as long as no number
+      is outside the float64 range and "query" / "operationName" are not repeated (the two corner
+      cases where encoding/json and jsoniter part ways: [null] after an earlier value, out-of-range
+      numbers in members that are not read) *)
+  Theorem C17_post_body_and_ws_payload_agree : forall text kvs p id o x,
+    parse_std text = PTree (JObj kvs) -> parse_jsi text = PTree (JObj kvs) ->
+    has_range (JObj kvs) = false -> single_string_members kvs = true ->
+    decode fixed parse_std parse_jsi (WHttp {| e_method := m_post; e_media := mt_json; e_url := []; e_body := text |}) = Some (o, x) ->
+    decode fixed parse_std parse_jsi (WWs p {| f_type := start_type p; f_id := id; f_payload := Some text |}) = Some (o, None).
+  Proof. exact (post_body_and_ws_payload_agree parse_std parse_jsi). Qed.
+
   (** ** the pipeline behind the envelopes: abstract *)
   Variables Schema Features Ctx Doc Resp SchemaDef : Type.
   Variable no_features : Features.
@@ -205,6 +217,7 @@ Print Assumptions C17_envelope_roundtrip.
 Print Assumptions C17_http_accepts_iff_well_formed.
 Print Assumptions C17_http_refusal_is_4xx.
 Print Assumptions C17_ws_start_iff_well_formed.
+Print Assumptions C17_post_body_and_ws_payload_agree.
 Print Assumptions C17_transport_same_response.
 Print Assumptions C17_ws_same_response.
 Print Assumptions C17_transport_features.
